@@ -421,6 +421,18 @@ def run_check(pid, tier):
             else:
                 ncases, nlines, mism = compare(os.path.join(work, "impl.txt"), os.path.join(work, "model.txt"))
                 oracle["model_s"] = model_s
+                # extraction cross-check: a sample of the cases is evaluated inside Coq (vm_compute)
+                # and must give what the extracted OCaml model printed
+                if drv["name"] == "TrieX":
+                    xv = os.path.join(work, "crosscheck.v")
+                    rcx, outx = sh(["python3", os.path.join(V, "tools", "crosscheck.py"), os.path.join(work, "cases.txt"),
+                                    os.path.join(work, "model.txt"), xv, "8" if tier == "quick" else "60"], timeout=300)
+                    nx = int(outx.strip().split()[-1]) if rcx == 0 and outx.strip() else 0
+                    if nx > 0:
+                        rcx, outx = sh(["coqc", "-Q", os.path.join(COQ, "theories"), "Slim", "-Q", os.path.join(COQ, "gen"), "SlimGen", xv], cwd=work, timeout=1200)
+                        oracle["extraction_crosscheck"] = {"cases_evaluated_in_coq": nx, "agree": rcx == 0}
+                        if rcx != 0:
+                            broken.append({"kind": "correspondence", "what": "extracted model and vm_compute disagree (crosscheck.v)", "detail": outx[-2000:]})
                 if mism:
                     first = mism[0]
                     broken.append({"kind": "correspondence",
@@ -495,6 +507,7 @@ def run_check(pid, tier):
         "correspondence": {"cases_compared": ncases, "observable_lines_compared": nlines, "mismatching_cases": len(mism),
                            "model_s": oracle.get("model_s"), "harness_s": oracle.get("harness_s")},
         "oracle": oracle.get("oracle", {}),
+        "extraction_crosscheck": oracle.get("extraction_crosscheck", {}),
         "proved_layer": cfg.get("proved_layer", ""),
         "statement_status": cfg.get("statement_status", ""),
         "broken": [b["what"] for b in broken],
